@@ -714,14 +714,125 @@ pub fn c07imp() -> bool {
     bad
 }
 
+/// C13 (heads API): insert keeps the greater timestamp, merge takes every head of the other set, the store reports per
+/// document exactly one head per author (the author's greatest timestamp, never a head of another document), and
+/// has_news_for_us compares a peer's report with exactly those.
+pub fn c13api() -> bool {
+    use iroh_docs::{AuthorHeads, AuthorId};
+    let mut bad = false;
+    let a = |b: u8| AuthorId::from(&[b; 32]);
+    let mut h = AuthorHeads::default();
+    h.insert(a(1), 5);
+    h.insert(a(1), 3);
+    if h.get(&a(1)) != Some(5) {
+        eprintln!("c13api: an older timestamp lowered a head");
+        bad = true;
+    }
+    h.insert(a(1), 9);
+    let mut other = AuthorHeads::default();
+    other.insert(a(1), 7);
+    other.insert(a(2), 2);
+    other.insert(a(3), 0);
+    h.merge(&other);
+    if h.get(&a(1)) != Some(9) || h.get(&a(2)) != Some(2) || h.get(&a(3)) != Some(0) || h.len() != 3 {
+        eprintln!("c13api: merge did not take every head of the other set / lowered a head: {h:?}");
+        bad = true;
+    }
+    // the store's heads: two documents, two authors
+    let mut store = Store::memory();
+    let authors = [Author::from_bytes(&[111u8; 32]), Author::from_bytes(&[112u8; 32])];
+    let docs = [NamespaceSecret::from_bytes(&[113u8; 32]), NamespaceSecret::from_bytes(&[114u8; 32])];
+    for (d, ns) in docs.iter().enumerate() {
+        let mut replica = store.new_replica(ns.clone()).unwrap();
+        for (i, key) in [&b"k1"[..], b"k2", b"k3"].iter().enumerate() {
+            if d == 1 && i == 2 {
+                continue;
+            }
+            let (hh, l) = hash(key);
+            block_on(replica.insert(key, &authors[i % 2], hh, l)).unwrap();
+        }
+        drop(replica);
+        store.close_replica(ns.id());
+    }
+    for (d, ns) in docs.iter().enumerate() {
+        let entries: Vec<_> = store.get_many(ns.id(), Query::all()).unwrap().map(|e| e.unwrap()).collect();
+        let mut want: Vec<(AuthorId, u64)> = vec![];
+        for au in authors.iter() {
+            if let Some(t) = entries.iter().filter(|e| e.author() == au.id()).map(|e| e.timestamp()).max() {
+                want.push((au.id(), t));
+            }
+        }
+        want.sort();
+        let mut got: Vec<(AuthorId, u64)> = store.get_latest_for_each_author(ns.id()).unwrap().map(|r| r.unwrap()).map(|(au, t, _k)| (au, t)).collect();
+        got.sort();
+        if got != want {
+            eprintln!("c13api: document {d}: heads {:?}, expected {:?}", got.len(), want.len());
+            bad = true;
+        }
+        // a peer reporting exactly our heads has no news; one newer / one unknown author is news for that many authors
+        let mut same = AuthorHeads::default();
+        for (au, t) in want.iter() {
+            same.insert(*au, *t);
+        }
+        let mut newer = same.clone();
+        newer.insert(want[0].0, want[0].1 + 1);
+        newer.insert(a(200), 0);
+        let n0 = store.has_news_for_us(ns.id(), &same).unwrap().map(|n| n.get()).unwrap_or(0);
+        let n2 = store.has_news_for_us(ns.id(), &newer).unwrap().map(|n| n.get()).unwrap_or(0);
+        if n0 != 0 || n2 != 2 {
+            eprintln!("c13api: document {d}: news for an identical report: {n0} (expected 0), for one newer head and one unknown author: {n2} (expected 2)");
+            bad = true;
+        }
+    }
+    bad
+}
+
+/// C15 (query c15_filter_text): `filter.to_string().parse()` gives the filter back, for filters the solver's free
+/// `str -> str` functions stand for (white space at either end, colons, upper case, non-UTF-8, empty).  true = defect manifests.
+pub fn c15text() -> bool {
+    use iroh_docs::store::FilterKind;
+    let mut samples: Vec<Vec<u8>> = vec![
+        b"".to_vec(), b" ".to_vec(), b"\n".to_vec(), b"notes ".to_vec(), b" notes".to_vec(), b"\tnotes\r\n".to_vec(), b"a b".to_vec(),
+        b":".to_vec(), b"::".to_vec(), b"a:b".to_vec(), b":a".to_vec(), b"a:".to_vec(), b"utf8:".to_vec(), b"hex:00".to_vec(), b"prefix:utf8:x".to_vec(),
+        b"ABC".to_vec(), b"aBc".to_vec(), b"0A".to_vec(), b"DEADBEEF".to_vec(), b"deadbeef".to_vec(), b"0".to_vec(), b"00".to_vec(),
+        "\u{a0}x\u{a0}".as_bytes().to_vec(), "x\u{2003}".as_bytes().to_vec(), "\u{3000}".as_bytes().to_vec(), "\u{85}".as_bytes().to_vec(), "\u{feff}x".as_bytes().to_vec(), "ǅ".as_bytes().to_vec(), "ß".as_bytes().to_vec(),
+        vec![0], vec![0, 0], vec![0x7f], vec![0xff], vec![0xff, 0x20], vec![0x20, 0xff], vec![0xc0, 0x80], vec![0xe2, 0x80], vec![b'a', 0xff, b':'], vec![0xff; 40],
+        "\"quoted\"".as_bytes().to_vec(), b"\\".to_vec(), b"{}".to_vec(), b"{kind}".to_vec(), b"%s".to_vec(),
+    ];
+    for b in 0u8..=255 {
+        samples.push(vec![b]);
+        samples.push(vec![b'k', b]);
+        samples.push(vec![b, b'k']);
+    }
+    let mut bad = false;
+    for bytes in samples {
+        for exact in [false, true] {
+            let f = if exact { FilterKind::Exact(bytes.clone().into()) } else { FilterKind::Prefix(bytes.clone().into()) };
+            let text = f.to_string();
+            match text.parse::<FilterKind>() {
+                Ok(g) if g == f => {}
+                other => {
+                    if !bad {
+                        eprintln!("c15text: {f:?} -> {text:?} -> {other:?}");
+                    }
+                    bad = true;
+                }
+            }
+        }
+    }
+    bad
+}
+
 pub fn run(id: &str) -> Option<bool> {
     Some(match id {
         "d2" => d2(),
         "c16hashes" => c16hashes(),
+        "c13api" => c13api(),
         "c07imp" => c07imp(),
         "c06err" => c06err(),
         "c14gate" => c14gate(),
         "c16open" => c16open(),
+        "c15text" => c15text(),
         "c07a" => c07a(),
         "d7" => d7(),
         "d4" => d4(),
